@@ -30,6 +30,7 @@ package storage
 //@   ensures state.stok(im) ==> result3 == nil
 
 //@ func setBalance props C06
+//@   modifies gmap("vis", mu)[]
 //@   ensures err == nil ==> has(gmap("vis", mu), str(key)) && len(gmap("vis", mu)[str(key)]) == 8 && be64(gmap("vis", mu)[str(key)], 0) == balance
 //@   ensures err != nil ==> has(gmap("vis", mu), str(key)) == old(has(gmap("vis", mu), str(key))) && gmap("vis", mu)[str(key)] == old(gmap("vis", mu)[str(key)])
 //@   ensures forall q string :: q != str(key) ==> has(gmap("vis", mu), q) == old(has(gmap("vis", mu), q)) && gmap("vis", mu)[q] == old(gmap("vis", mu)[q])
@@ -38,6 +39,7 @@ package storage
 // AddBalance / SubBalance move exactly `amount` on the address's record and touch nothing else; a sum
 // above 2^64-1 / a balance below the amount is rejected; a failure changes nothing
 //@ func AddBalance props C06
+//@   modifies gmap("vis", mu)[]
 //@   requires wfrec(gmap("vis", mu), str(BalanceKey(addr)))
 //@   let K = str(BalanceKey(addr))
 //@   ensures err == nil ==> result0 == old(balAt(gmap("vis", mu), K)) + amount && balAt(gmap("vis", mu), K) == result0 && wfrec(gmap("vis", mu), K)
@@ -45,6 +47,7 @@ package storage
 //@   ensures forall q string :: q != K ==> has(gmap("vis", mu), q) == old(has(gmap("vis", mu), q)) && gmap("vis", mu)[q] == old(gmap("vis", mu)[q])
 //@   ensures old(balAt(gmap("vis", mu), K)) + amount > MAX ==> err != nil
 //@ func SubBalance props C06
+//@   modifies gmap("vis", mu)[]
 //@   requires wfrec(gmap("vis", mu), str(BalanceKey(addr)))
 //@   let K = str(BalanceKey(addr))
 //@   ensures err == nil ==> result0 == old(balAt(gmap("vis", mu), K)) - amount && balAt(gmap("vis", mu), K) == result0 && wfrec(gmap("vis", mu), K) && old(has(gmap("vis", mu), K))
